@@ -151,6 +151,24 @@ def cookies_pass(bad, stats):
                 if ck and not same: bad.append(('cookie-to-another-host', 'Set-Cookie %r from a.example, then %s %s carries Cookie: %r' % (sc, code or 'new fetch of', shape.format(h=other), ck)))
                 v = check_wire(n.to_bytes(), n.url_info, 'cookie scenario %r -> %s' % (sc, other))
                 if v: bad.append(v)
+    # a returning visitor: the jar already holds a.example's cookie, so the ORIGINAL request carries it; a redirect to another host -- in particular a 307 / 308, whose
+    # next request is a copy of the original one -- must not take it along (with and without a login configured, i.e. with and without an Authorization field to drop)
+    for other in OTHERS:
+        for code in (301, 302, 303, 307, 308):
+            for shape in SHAPES[:2]:
+                jar = http.cookiejar.CookieJar(); jar.set_policy(DeFactoCookiePolicy(cookie_jar=jar)); wrap = CookieJarWrapper(jar)
+                first = Request('http://a.example/login'); first.prepare_for_send()
+                session(first, wrap)._process_response(resp(first, 200, [('Set-Cookie', 'sid=SECRET-OF-A')]))
+                o = Request('http://a.example/next'); o.prepare_for_send()
+                ws = session(o, wrap)
+                sent = ws.next_request()
+                if sent is None or sent.fields.get('Cookie') != 'sid=SECRET-OF-A': continue
+                ws._process_response(resp(sent, code, [('Location', shape.format(h=other))]))
+                n = ws.next_request(); stats['cookie-scenarios'] += 1
+                if n is None: continue
+                same = other.lower().rstrip('.') == 'a.example'
+                ck = n.fields.get('Cookie')
+                if ck and not same: bad.append(('cookie-to-another-host', 'jar holds sid=SECRET-OF-A for a.example; request to a.example answered %d -> %s: the next request carries Cookie: %r' % (code, shape.format(h=other), ck)))
     # positive control: the cookie does come back to its own host (otherwise the scenarios above prove nothing)
     jar = http.cookiejar.CookieJar(); jar.set_policy(DeFactoCookiePolicy(cookie_jar=jar)); wrap = CookieJarWrapper(jar)
     o = Request('http://a.example/login'); o.prepare_for_send(); ws = session(o, wrap)
